@@ -164,6 +164,7 @@ class Env:
         e.dev_opts = self.dev_opts
         e.funcs = self.funcs
         e.poly = self.poly
+        e.pin_vars = getattr(self, "pin_vars", [])
         e.used = self.used
         e.in_fn, e.loop_depth, e.in_main = self.in_fn, self.loop_depth, self.in_main
         e.features = self.features
@@ -1064,7 +1065,14 @@ def declare_device(env, kind, pins, iface=None):
     if name is None:
         return None
     env.used.add(name)
-    P = lambda: pins.pop() if pins else rng.randint(2, 13)
+    def P():
+        # a pin is a literal, or (when the script has pin variables) a global int variable / a sum of one and a literal
+        pv = getattr(env, "pin_vars", [])
+        if pv and rng.random() < 0.4:
+            env.feat("device pin from a variable")
+            v = rng.choice(pv)
+            return v if rng.random() < 0.6 else f"{v} + {rng.randint(1, 4)}"
+        return pins.pop() if pins else rng.randint(2, 13)
     env.feat("declare " + kind)
     if kind == "Led":
         src = rng.choice([f"Led({P()})", f"Led(pin={P()})", "Led()"])
@@ -1361,6 +1369,14 @@ def gen_script(rng, opts=None):
     if rng.random() < 0.3:
         early_fns = gen_function(env)          # zero-device function usable as Button callback
     lines += early_fns
+    # pin numbers kept in global variables (declared above the devices that use them)
+    env.pin_vars = []
+    if rng.random() < opts.get("p_pinvars", 0.25):
+        for _ in range(rng.randint(1, 3)):
+            v = env.fresh(["pin_a", "led_pin", "base_pin", "first_pin", "out_pin"])
+            env.vars[v] = "int"
+            env.pin_vars.append(v)
+            lines.append(f"{v} = {pins.pop()}")
     # how many instances of each kind: one, or (multi) up to three - the emitter keeps per-NAME state and per-KIND flags
     plan = []
     for k in kinds_pre:
@@ -1498,6 +1514,18 @@ def shapes_of(src: str):
                 out.add("fn-lcd-animate")
             if isinstance(n, ast.Call) and isinstance(n.func, ast.Name) and n.func.id in order and order[n.func.id] > order[f.name]:
                 out.add("fn-forward-call")
+    # a function defined ABOVE the RGBLed it drives: .on() / .off() / .blink() / .toggle() are then translated as Led methods
+    rgb_line = {}
+    for st in tree.body:
+        if isinstance(st, ast.Assign) and isinstance(st.value, ast.Call) and isinstance(st.value.func, ast.Name) and st.value.func.id == "RGBLed":
+            for t in st.targets:
+                if isinstance(t, ast.Name):
+                    rgb_line.setdefault(t.id, st.lineno)
+    for f in fdefs:
+        for n in ast.walk(f):
+            if isinstance(n, ast.Call) and isinstance(n.func, ast.Attribute) and isinstance(n.func.value, ast.Name) \
+                    and n.func.attr in ("on", "off", "blink", "toggle") and rgb_line.get(n.func.value.id, 0) > f.lineno:
+                out.add("fn-above-rgbled")
     # un-annotated parameters: (1) re-bound in the body to a string-valued expression (the C++ parameter becomes String, int call
     # sites no longer convert); (2) given a string / float literal at a call site outside an assignment or return value (no call
     # signature is recorded there, so no variant for that argument type is emitted)
